@@ -1,7 +1,684 @@
-//! C06 — not implemented yet.
+//! C06 — SAM text round trip (headers and records), the text is a fixed point, and the same
+//! (header, records) written as SAM and as BAM read back equal, in both directions of conversion.
 
 use crate::engine::*;
+use crate::r#gen::aln::{self, AlnDoc, AlnHeader, AlnRecord, AuxValue, B, Fields, HeaderParams, Mode, Norm, Tag, Target};
+use crate::r#gen::payload::XorShift;
+use crate::oracle::{bam_raw, bgzf_walk};
+use crate::props::c05::{push_record_diffs, read_bam_eager, write_bam};
+use noodles_bam as bam;
+use noodles_sam as sam;
+use proptest::prelude::*;
+use sam::alignment::RecordBuf;
+use sam::alignment::io::Write as _;
+use serde::{Deserialize, Serialize};
+
+fn f(sig: &str, msg: impl Into<String>) -> Vec<Fail> {
+    vec![Fail::new(sig, msg)]
+}
+
+fn describe_err(e: &std::io::Error) -> String {
+    let mut s = format!("{e}");
+    let mut src = std::error::Error::source(e);
+    while let Some(x) = src {
+        s.push_str(&format!(" <- {x}"));
+        src = x.source();
+    }
+    s
+}
+
+fn show(b: &[u8]) -> String {
+    trunc(&format!("{:?}", B(b.to_vec())), 700)
+}
+
+// ---------------------------------------------------------------------------------------------
+// helpers (pub: the format drivers can reuse them)
+// ---------------------------------------------------------------------------------------------
+
+pub fn write_sam_header(h: &sam::Header, sig_prefix: &str) -> Result<Vec<u8>, Vec<Fail>> {
+    let mut w = sam::io::Writer::new(Vec::new());
+    w.write_header(h).map_err(|e| f(&format!("{sig_prefix}.valid-rejected"), format!("SAM write_header rejects a valid header: {}", describe_err(&e))))?;
+    Ok(w.into_inner())
+}
+
+/// One record as a SAM line (with the line feed).
+pub fn write_sam_record(h: &sam::Header, r: &dyn sam::alignment::Record, sig: &str) -> Result<Vec<u8>, Vec<Fail>> {
+    let mut w = sam::io::Writer::new(Vec::new());
+    w.write_alignment_record(h, r).map_err(|e| f(sig, format!("SAM writer rejects the record: {}", describe_err(&e))))?;
+    Ok(w.into_inner())
+}
+
+pub fn write_sam_doc(h: &sam::Header, records: &[RecordBuf], sig_prefix: &str) -> Result<Vec<u8>, Vec<Fail>> {
+    let mut w = sam::io::Writer::new(Vec::new());
+    w.write_header(h).map_err(|e| f(&format!("{sig_prefix}.header-rejected"), format!("SAM write_header: {}", describe_err(&e))))?;
+    for (i, r) in records.iter().enumerate() {
+        w.write_alignment_record(h, r).map_err(|e| f(&format!("{sig_prefix}.valid-rejected"), format!("SAM writer rejects valid record #{i}: {}", describe_err(&e))))?;
+    }
+    Ok(w.into_inner())
+}
+
+pub fn read_sam_eager(bytes: &[u8], sig_prefix: &str) -> Result<(sam::Header, Vec<AlnRecord>), Vec<Fail>> {
+    let mut r = sam::io::Reader::new(bytes);
+    let h = r.read_header().map_err(|e| f(&format!("{sig_prefix}.read-header-error"), format!("SAM read_header: {}", describe_err(&e))))?;
+    let mut rec = RecordBuf::default();
+    let mut out = Vec::new();
+    loop {
+        match r.read_record_buf(&h, &mut rec) {
+            Ok(0) => break,
+            Ok(_) => out.push(AlnRecord::from_noodles(&rec)),
+            Err(e) => return Err(f(&format!("{sig_prefix}.read-error"), format!("SAM read_record_buf #{}: {}", out.len(), describe_err(&e)))),
+        }
+    }
+    Ok((h, out))
+}
+
+fn push_header_diffs(fails: &mut Fails, prefix: &str, what: &str, got: &AlnHeader, want: &AlnHeader) {
+    for (part, msg) in got.diff(want) {
+        fails.push(format!("{prefix}.{part}"), format!("{what}: {part}: {} (got vs want)", trunc(&msg, 700)));
+    }
+}
+
+// ---------------------------------------------------------------------------------------------
+// sub-check 1: headers
+// ---------------------------------------------------------------------------------------------
+
+#[derive(Clone, Debug, Serialize, Deserialize)]
+pub struct HeaderCase {
+    pub header: AlnHeader,
+    /// seed for the re-ordered rendering (line order, field order)
+    pub shuffle: u32,
+}
+
+fn header_strategy(tier: Tier) -> BoxedStrategy<HeaderCase> {
+    (aln::header(tier), any::<u32>()).prop_map(|(header, shuffle)| HeaderCase { header, shuffle }).boxed()
+}
+
+fn shuffle<T>(v: &mut [T], r: &mut XorShift) {
+    for i in (1..v.len()).rev() {
+        let j = (r.next() % (i as u64 + 1)) as usize;
+        v.swap(i, j);
+    }
+}
+
+/// The header as another SAM producer might write it: `@HD` first, then the other lines in any
+/// interleaving (relative order within a kind kept), fields of a line in any order. Returns the
+/// text and the model it denotes (other-fields in their order of appearance).
+fn foreign_text(h: &AlnHeader, seed: u32) -> (Vec<u8>, AlnHeader) {
+    let mut r = XorShift::new(seed as u64 + 77);
+    let mut want = h.clone();
+    let render = |kind: &[u8], id: Vec<(Tag, B)>, other: &mut Fields, r: &mut XorShift| -> Vec<u8> {
+        let mut all: Vec<(Tag, B, bool)> = id.into_iter().map(|(t, v)| (t, v, true)).chain(other.iter().cloned().map(|(t, v)| (t, v, false))).collect();
+        shuffle(&mut all, r);
+        *other = all.iter().filter(|x| !x.2).map(|x| (x.0, x.1.clone())).collect();
+        let mut l = b"@".to_vec();
+        l.extend_from_slice(kind);
+        for (t, v, _) in &all {
+            l.push(b'\t');
+            l.extend_from_slice(&t.0);
+            l.push(b':');
+            l.extend_from_slice(&v.0);
+        }
+        l.push(b'\n');
+        l
+    };
+    let mut text = Vec::new();
+    if let Some(hd) = &mut want.hd {
+        let vn = B::new(format!("{}.{}", hd.major, hd.minor));
+        text.extend(render(b"HD", vec![(Tag(*b"VN"), vn)], &mut hd.other, &mut r));
+    }
+    let mut queues: Vec<Vec<Vec<u8>>> = vec![Vec::new(); 4];
+    for sq in &mut want.refs {
+        let id = vec![(Tag(*b"SN"), sq.name.clone()), (Tag(*b"LN"), B::new(sq.len.to_string()))];
+        queues[0].push(render(b"SQ", id, &mut sq.other, &mut r));
+    }
+    for rg in &mut want.read_groups {
+        queues[1].push(render(b"RG", vec![(Tag(*b"ID"), rg.id.clone())], &mut rg.other, &mut r));
+    }
+    for pg in &mut want.programs {
+        queues[2].push(render(b"PG", vec![(Tag(*b"ID"), pg.id.clone())], &mut pg.other, &mut r));
+    }
+    queues[3] = h.co_lines();
+    let mut idx = [0usize; 4];
+    loop {
+        let avail: Vec<usize> = (0..4).filter(|k| idx[*k] < queues[*k].len()).collect();
+        if avail.is_empty() {
+            break;
+        }
+        let k = avail[(r.next() % avail.len() as u64) as usize];
+        text.extend_from_slice(&queues[k][idx[k]]);
+        idx[k] += 1;
+    }
+    (text, want)
+}
+
+fn header_check(c: &HeaderCase) -> Verdict {
+    let h = &c.header;
+    if let Some(why) = aln::header_invalid_reason(h) {
+        return fail1("c06.harness.generator", format!("generated header outside the domain: {why}"));
+    }
+    let nh = h.to_noodles().map_err(|e| f("c06.harness.model", e))?;
+    if AlnHeader::from_noodles(&nh) != *h {
+        return fail1("c06.harness.model", "AlnHeader → sam::Header → AlnHeader is not the identity");
+    }
+    let mut fails = Fails::new();
+
+    // write (valid ⇒ accepted), and the text denotes the header by the grammar alone
+    let text = write_sam_header(&nh, "c06.header")?;
+    match AlnHeader::from_text(&text) {
+        Ok(m) => push_header_diffs(&mut fails, "c06.header.text", "independent parse of the written text", &m, h),
+        Err(e) => fails.push("c06.header.text.malformed", format!("written header text is not SAM header grammar: {e}; text {}", show(&text))),
+    }
+
+    // parse(write(h)) = h, two entry points
+    let mut rd = sam::io::Reader::new(&text[..]);
+    match rd.read_header() {
+        Err(e) => fails.push("c06.header.parse-error", format!("read_header rejects noodles' own output: {}; text {}", describe_err(&e), show(&text))),
+        Ok(h2) => {
+            push_header_diffs(&mut fails, "c06.header.parse", "read_header(write_header(h))", &AlnHeader::from_noodles(&h2), h);
+            if h2 != nh && fails.is_empty() {
+                fails.push("c06.header.parse.eq", "parsed header differs from the original by sam::Header's own equality");
+            }
+            // write(parse(t)) = t
+            match write_sam_header(&h2, "c06.header.rewrite") {
+                Ok(t2) => {
+                    if t2 != text {
+                        fails.push("c06.header.fixed-point", format!("write(parse(t)) ≠ t: {} vs {}", show(&t2), show(&text)));
+                    }
+                }
+                Err(mut e) => fails.0.append(&mut e),
+            }
+        }
+    }
+    match std::str::from_utf8(&text) {
+        Err(_) => fails.push("c06.header.text.malformed", "written header text is not UTF-8 although every value is"),
+        Ok(s) => match s.parse::<sam::Header>() {
+            Err(e) => fails.push("c06.header.fromstr-error", format!("str::parse::<sam::Header>() rejects noodles' own output: {e}; text {}", show(&text))),
+            Ok(h2) => push_header_diffs(&mut fails, "c06.header.fromstr", "text.parse::<sam::Header>()", &AlnHeader::from_noodles(&h2), h),
+        },
+    }
+
+    // the same header as another producer may lay it out
+    let (ftext, fwant) = foreign_text(h, c.shuffle);
+    let mut rd = sam::io::Reader::new(&ftext[..]);
+    match rd.read_header() {
+        Err(e) => fails.push("c06.header.foreign.parse-error", format!("read_header rejects a grammatical header: {}; text {}", describe_err(&e), show(&ftext))),
+        Ok(h2) => push_header_diffs(&mut fails, "c06.header.foreign", &format!("read_header of re-ordered text {}", show(&ftext)), &AlnHeader::from_noodles(&h2), &fwant),
+    }
+
+    // BAM: text + binary dictionary
+    let bytes = write_bam(&nh, &[], "c06.header.bam")?;
+    let members = bgzf_walk::walk(&bytes).map_err(|e| f("c06.header.bam.bgzf-malformed", e))?;
+    let stream = bgzf_walk::concat(&members);
+    match bam_raw::parse_header(&stream) {
+        Err(e) => fails.push("c06.header.bam.raw", format!("BAM header framing: {e}")),
+        Ok(raw) => {
+            let dict: Vec<(B, i64)> = raw.refs.iter().map(|(n, l)| (B(n.clone()), *l as i64)).collect();
+            let want: Vec<(B, i64)> = h.refs.iter().map(|s| (s.name.clone(), s.len as i64)).collect();
+            if dict != want {
+                fails.push("c06.header.bam.dictionary", format!("binary reference list {} ≠ @SQ lines {}", trunc(&format!("{dict:?}"), 400), trunc(&format!("{want:?}"), 400)));
+            }
+            if raw.records_offset != stream.len() {
+                fails.push("c06.header.bam.raw", format!("{} bytes after the reference list of a record-less BAM", stream.len() - raw.records_offset));
+            }
+            // the embedded text, NUL padding aside, denotes the same header
+            let t = raw.text.clone();
+            let t = &t[..t.iter().position(|b| *b == 0).unwrap_or(t.len())];
+            match AlnHeader::from_text(t) {
+                Ok(m) => push_header_diffs(&mut fails, "c06.header.bam.text", "independent parse of the text embedded in BAM", &m, h),
+                Err(e) => fails.push("c06.header.bam.text.malformed", format!("{e}")),
+            }
+        }
+    }
+    match read_bam_eager(&bytes, "c06.header.bam") {
+        Err(mut e) => fails.0.append(&mut e),
+        Ok((h3, recs)) => {
+            push_header_diffs(&mut fails, "c06.header.bam", "BAM read_header(write_header(h))", &AlnHeader::from_noodles(&h3), h);
+            if !recs.is_empty() {
+                fails.push("c06.header.bam.records", format!("{} records read from a record-less BAM", recs.len()));
+            }
+        }
+    }
+
+    let kinds = h.hd.is_some() as u32 + !h.refs.is_empty() as u32 + !h.read_groups.is_empty() as u32 + !h.programs.is_empty() as u32 + !h.comments.is_empty() as u32;
+    let user_tag = |fs: &Fields| fs.iter().any(|(t, _)| t.0[0].is_ascii_lowercase() || t.0[1].is_ascii_lowercase());
+    let any_other = h.hd.iter().any(|x| !x.other.is_empty()) || h.refs.iter().any(|x| !x.other.is_empty()) || h.read_groups.iter().any(|x| !x.other.is_empty()) || h.programs.iter().any(|x| !x.other.is_empty());
+    let p = Pass::new(kinds >= 2 || any_other, key_of(c))
+        .label_if(h.is_empty(), "empty-header")
+        .label_if(h.hd.is_some(), "@HD")
+        .label_if(h.hd.is_none() && !h.is_empty(), "no-@HD")
+        .label_if(h.hd.as_ref().is_some_and(|x| (x.major, x.minor) < (1, 6)), "VN<1.6")
+        .label_if(!h.refs.is_empty(), "@SQ")
+        .label_if(h.refs.len() > 20, "@SQ>20")
+        .label_if(h.refs.iter().any(|s| s.len == (1 << 31) - 1), "LN=2^31-1")
+        .label_if(!h.read_groups.is_empty(), "@RG")
+        .label_if(!h.programs.is_empty(), "@PG")
+        .label_if(!h.comments.is_empty(), "@CO")
+        .label_if(h.comments.iter().any(|c| c.0.contains(&b'\t')), "@CO-with-tab")
+        .label_if(h.comments.iter().any(|c| c.0.is_empty()), "@CO-empty")
+        .label_if(h.comments.iter().any(|c| !c.0.is_ascii()), "@CO-utf8")
+        .label_if(kinds >= 4, "kinds>=4")
+        .label_if(any_other, "other-fields")
+        .label_if(h.hd.iter().any(|x| user_tag(&x.other)) || h.refs.iter().any(|x| user_tag(&x.other)) || h.read_groups.iter().any(|x| user_tag(&x.other)) || h.programs.iter().any(|x| user_tag(&x.other)), "user-tags")
+        .label_if(h.refs.iter().any(|x| x.other.len() >= 2) || h.read_groups.iter().any(|x| x.other.len() >= 2) || h.programs.iter().any(|x| x.other.len() >= 2), "line-with>=2-other-fields");
+    fails.finish(p)
+}
+
+// ---------------------------------------------------------------------------------------------
+// sub-check 2: one record as SAM text
+// ---------------------------------------------------------------------------------------------
+
+#[derive(Clone, Debug, Serialize, Deserialize)]
+pub struct RecordCase {
+    pub header: AlnHeader,
+    pub records: Vec<AlnRecord>,
+}
+
+fn record_strategy(tier: Tier) -> BoxedStrategy<RecordCase> {
+    let mut hp = HeaderParams::for_tier(tier);
+    hp.max_lines = 1;
+    hp.many_refs = 40;
+    aln::document_n(&hp, &Mode::sam(), 1, 3).prop_map(|d| RecordCase { header: d.header, records: d.records }).boxed()
+}
+
+fn aux_labels(mut p: Pass, rs: &[AlnRecord]) -> Pass {
+    for r in rs {
+        for (_, v) in &r.aux {
+            p = p.label(match v {
+                AuxValue::Char(_) => "aux:A",
+                AuxValue::F32(_) => "aux:f",
+                AuxValue::Str(_) => "aux:Z",
+                AuxValue::Hex(_) => "aux:H",
+                AuxValue::ArrF32(_) => "aux:B:f",
+                v if v.is_array() => "aux:B:int",
+                _ => "aux:int",
+            });
+            p = p.label_if(v.array_len() == Some(0), "aux:B-empty").label_if(matches!(v, AuxValue::Str(s) if s.is_empty()), "aux:Z-empty").label_if(matches!(v, AuxValue::Hex(s) if s.is_empty()), "aux:H-empty");
+            if let Some(n) = v.as_int() {
+                p = p.label_if(n < 0, "aux:int<0").label_if(n > i32::MAX as i64, "aux:int>i32").label_if(n == i32::MIN as i64 || n == u32::MAX as i64, "aux:int-extreme");
+            }
+        }
+    }
+    p
+}
+
+fn record_labels(p: Pass, h: &AlnHeader, rs: &[AlnRecord]) -> Pass {
+    let any = |g: &dyn Fn(&AlnRecord) -> bool| rs.iter().any(|r| g(r));
+    let mut p = aux_labels(p, rs)
+        .label_if(h.refs.is_empty(), "no-dictionary")
+        .label_if(any(&|r| r.name.is_none()), "name-missing")
+        .label_if(any(&|r| r.ref_id.is_some() && r.mate_ref_id == r.ref_id), "rnext-eq")
+        .label_if(any(&|r| r.ref_id.is_some() && r.mate_ref_id.is_some() && r.mate_ref_id != r.ref_id), "rnext-other")
+        .label_if(any(&|r| r.ref_id.is_none() && r.mate_ref_id.is_some()), "rnext-without-rname")
+        .label_if(any(&|r| r.ref_id.is_some() && r.mate_ref_id.is_none()), "rname-without-rnext")
+        .label_if(any(&|r| r.pos.is_none()), "pos-0")
+        .label_if(any(&|r| r.pos == Some((1 << 31) - 1)), "pos=2^31-1")
+        .label_if(any(&|r| r.mapq.is_none()), "mapq-255")
+        .label_if(any(&|r| r.cigar.n_ops() == 0), "cigar-*")
+        .label_if(any(&|r| r.cigar.n_ops() >= 2), "cigar>=2")
+        .label_if(any(&|r| r.bases().is_empty()), "seq-*")
+        .label_if(any(&|r| !r.bases().is_empty() && r.quals().is_empty()), "qual-*")
+        .label_if(any(&|r| r.quals().first() == Some(&9)), "qual-starts-with-*")
+        .label_if(any(&|r| r.bases().iter().any(|b| b.is_ascii_lowercase() || *b == b'.')), "bases-outside-bam-alphabet")
+        .label_if(any(&|r| r.tlen == i32::MIN), "tlen-min")
+        .label_if(any(&|r| r.aux.len() >= 4), "aux>=4");
+    p.labels.sort();
+    p.labels.dedup();
+    p
+}
+
+fn record_check(c: &RecordCase) -> Verdict {
+    let n_ref = c.header.n_ref();
+    for r in &c.records {
+        if let Some(why) = aln::invalid_reason(r, n_ref, Target::Sam) {
+            return fail1("c06.harness.generator", format!("generated record outside the SAM domain: {why}"));
+        }
+    }
+    let nh = c.header.to_noodles().map_err(|e| f("c06.harness.model", e))?;
+    let mut fails = Fails::new();
+    let mut text = Vec::new();
+    let mut lines = Vec::new();
+    for (i, r) in c.records.iter().enumerate() {
+        let buf = r.to_noodles().map_err(|e| f("c06.harness.model", e))?;
+        // valid ⇒ accepted
+        let line = write_sam_record(&nh, &buf, "c06.record.valid-rejected")?;
+        // the line is the record, by the grammar alone
+        if line.last() != Some(&b'\n') || line[..line.len() - 1].contains(&b'\n') {
+            fails.push("c06.record.text.columns", format!("record #{i}: not exactly one line: {}", show(&line)));
+        } else {
+            let want = aln::sam_tokens(&c.header, r).map_err(|e| f("c06.harness.model", e))?;
+            if let Err((class, msg)) = aln::check_sam_line(&line[..line.len() - 1], &want) {
+                fails.push(format!("c06.record.text.{class}"), format!("record #{i}: {msg}; line {}", show(&line)));
+            }
+        }
+        // the generic writer path must give the same text
+        match write_sam_record(&nh, &aln::GenericRecord(&buf), "c06.record.generic.valid-rejected") {
+            Ok(l2) => {
+                if l2 != line {
+                    fails.push("c06.record.generic.text", format!("record #{i}: generic record path writes {} but the RecordBuf path {}", show(&l2), show(&line)));
+                }
+            }
+            Err(mut e) => fails.0.append(&mut e),
+        }
+        text.extend_from_slice(&line);
+        lines.push(line);
+    }
+
+    // parse(write(r)) = r, eagerly (one re-used RecordBuf)
+    let mut rd = sam::io::Reader::new(&text[..]);
+    let mut rec = RecordBuf::default();
+    let mut parsed: Vec<RecordBuf> = Vec::new();
+    for (i, r) in c.records.iter().enumerate() {
+        match rd.read_record_buf(&nh, &mut rec) {
+            Ok(0) => {
+                fails.push("c06.record.count", format!("EOF at record #{i} of {}", c.records.len()));
+                break;
+            }
+            Ok(_) => {
+                push_record_diffs(&mut fails, "c06.record.rt", &format!("record #{i} parsed from {}", show(&lines[i])), &AlnRecord::from_noodles(&rec).normalized(Norm::SAM), &r.normalized(Norm::SAM));
+                parsed.push(rec.clone());
+            }
+            Err(e) => {
+                fails.push("c06.record.parse-error", format!("record #{i}: read_record_buf rejects noodles' own output: {}; line {}", describe_err(&e), show(&lines[i])));
+                break;
+            }
+        }
+    }
+    if parsed.len() == c.records.len() {
+        match rd.read_record_buf(&nh, &mut rec) {
+            Ok(0) => {}
+            other => fails.push("c06.record.count", format!("read after the last record returns {other:?}")),
+        }
+    }
+    // write(parse(t)) = t
+    for (i, p) in parsed.iter().enumerate() {
+        match write_sam_record(&nh, p, "c06.record.rewrite-rejected") {
+            Ok(l2) => {
+                if l2 != lines[i] {
+                    fails.push("c06.record.fixed-point", format!("record #{i}: write(parse(t)) = {} but t = {}", show(&l2), show(&lines[i])));
+                }
+            }
+            Err(mut e) => fails.0.append(&mut e),
+        }
+    }
+    // the lazy record: conversion = eager parse; written back = t
+    let mut rd = sam::io::Reader::new(&text[..]);
+    let mut lazy = sam::Record::default();
+    let mut reused = RecordBuf::default();
+    for (i, r) in c.records.iter().enumerate() {
+        match rd.read_record(&mut lazy) {
+            Ok(0) => {
+                fails.push("c06.record.lazy.count", format!("EOF at record #{i}"));
+                break;
+            }
+            Ok(_) => {}
+            Err(e) => {
+                fails.push("c06.record.lazy.read-error", format!("record #{i}: read_record: {}", describe_err(&e)));
+                break;
+            }
+        }
+        if !r.has_nonlast_empty_array() {
+            match reused.try_clone_from_alignment_record(&nh, &lazy) {
+                Ok(()) => push_record_diffs(&mut fails, "c06.record.lazy-reused", &format!("record #{i}: sam::Record → used RecordBuf"), &AlnRecord::from_noodles(&reused).normalized(Norm::SAM), &r.normalized(Norm::SAM)),
+                Err(e) => fails.push("c06.record.lazy.convert-error", format!("record #{i}: try_clone_from_alignment_record: {}", describe_err(&e))),
+            }
+        }
+        match RecordBuf::try_from_alignment_record(&nh, &lazy) {
+            Ok(conv) => push_record_diffs(&mut fails, "c06.record.lazy", &format!("record #{i}: sam::Record → RecordBuf"), &AlnRecord::from_noodles(&conv).normalized(Norm::SAM), &r.normalized(Norm::SAM)),
+            Err(e) => {
+                let sig = if r.has_nonlast_empty_array() { "c06.record.lazy.empty-array" } else { "c06.record.lazy.convert-error" };
+                fails.push(sig, format!("record #{i}: try_from_alignment_record: {}; line {}", describe_err(&e), show(&lines[i])));
+            }
+        }
+        match write_sam_record(&nh, &lazy, if r.has_nonlast_empty_array() { "c06.record.lazy.empty-array.rewrite" } else { "c06.record.lazy.rewrite-rejected" }) {
+            Ok(l2) => {
+                if l2 != lines[i] {
+                    fails.push("c06.record.lazy.fixed-point", format!("record #{i}: writing the lazy sam::Record gives {} but it was read from {}", show(&l2), show(&lines[i])));
+                }
+            }
+            Err(mut e) => fails.0.append(&mut e),
+        }
+    }
+    let nontrivial = c.records.iter().any(|r| !r.aux.is_empty() || r.cigar.n_ops() >= 2 || r.mate_ref_id.is_some());
+    fails.finish(record_labels(Pass::new(nontrivial, key_of(c)).evals(c.records.len() as u64), &c.header, &c.records))
+}
+
+// ---------------------------------------------------------------------------------------------
+// sub-check 3: SAM = BAM, both directions of conversion
+// ---------------------------------------------------------------------------------------------
+
+#[derive(Clone, Debug, Serialize, Deserialize)]
+pub struct DocCase {
+    pub doc: AlnDoc,
+}
+
+fn doc_strategy(tier: Tier) -> BoxedStrategy<DocCase> {
+    let mut hp = HeaderParams::for_tier(tier);
+    hp.many_refs = 60;
+    aln::document(&hp, &Mode::both(), 4).prop_map(|doc| DocCase { doc }).boxed()
+}
+
+fn doc_check(c: &DocCase) -> Verdict {
+    let doc = &c.doc;
+    let n_ref = doc.header.n_ref();
+    for r in &doc.records {
+        if let Some(why) = aln::invalid_reason(r, n_ref, Target::Both) {
+            return fail1("c06.harness.generator", format!("generated record outside the SAM∩BAM domain: {why}"));
+        }
+    }
+    let nh = doc.header.to_noodles().map_err(|e| f("c06.harness.model", e))?;
+    let bufs: Vec<RecordBuf> = doc.records.iter().map(|r| r.to_noodles()).collect::<Result<_, _>>().map_err(|e| f("c06.harness.model", e))?;
+    let mut fails = Fails::new();
+
+    let sam_bytes = write_sam_doc(&nh, &bufs, "c06.sambam.sam")?;
+    let bam_bytes = write_bam(&nh, &bufs, "c06.sambam.bam")?;
+    let (hs, rs) = read_sam_eager(&sam_bytes, "c06.sambam.sam")?;
+    let (hb, rb) = read_bam_eager(&bam_bytes, "c06.sambam.bam")?;
+
+    // equal headers
+    let (ms, mb) = (AlnHeader::from_noodles(&hs), AlnHeader::from_noodles(&hb));
+    push_header_diffs(&mut fails, "c06.sambam.header.sam", "header read from SAM", &ms, &doc.header);
+    push_header_diffs(&mut fails, "c06.sambam.header.bam", "header read from BAM", &mb, &doc.header);
+    push_header_diffs(&mut fails, "c06.sambam.header", "header read from SAM vs from BAM", &ms, &mb);
+    if hs != hb && fails.is_empty() {
+        fails.push("c06.sambam.header.eq", "headers read from SAM and from BAM differ by sam::Header's own equality");
+    }
+
+    // equal records
+    if rs.len() != doc.records.len() || rb.len() != doc.records.len() {
+        fails.push("c06.sambam.count", format!("{} records written, {} read from SAM, {} from BAM", doc.records.len(), rs.len(), rb.len()));
+        return fails.finish(Pass::new(false, 0));
+    }
+    for (i, want) in doc.records.iter().enumerate() {
+        let w = want.normalized(Norm::CROSS);
+        push_record_diffs(&mut fails, "c06.sambam.record", &format!("record #{i}: SAM-read vs BAM-read"), &rs[i].normalized(Norm::CROSS), &rb[i].normalized(Norm::CROSS));
+        push_record_diffs(&mut fails, "c06.sambam.sam-read", &format!("record #{i}: SAM-read vs written"), &rs[i].normalized(Norm::CROSS), &w);
+        push_record_diffs(&mut fails, "c06.sambam.bam-read", &format!("record #{i}: BAM-read vs written"), &rb[i].normalized(Norm::CROSS), &w);
+    }
+
+    // SAM → BAM: eager records, and lazy sam::Record handed straight to the BAM writer
+    {
+        let conv: Vec<RecordBuf> = rs.iter().map(|r| r.to_noodles()).collect::<Result<_, _>>().map_err(|e| f("c06.harness.model", e))?;
+        // the whole document is a fixed point of read → write
+        match write_sam_doc(&hs, &conv, "c06.sambam.sam.rewrite") {
+            Ok(t) => {
+                if t != sam_bytes {
+                    fails.push("c06.sambam.sam.fixed-point", format!("write(read(SAM document)) differs: {} vs {}", show(&t), show(&sam_bytes)));
+                }
+            }
+            Err(mut e) => fails.0.append(&mut e),
+        }
+        match write_bam(&hs, &conv, "c06.convert.sam2bam").and_then(|b| read_bam_eager(&b, "c06.convert.sam2bam")) {
+            Err(mut e) => fails.0.append(&mut e),
+            Ok((h2, back)) => {
+                push_header_diffs(&mut fails, "c06.convert.sam2bam.header", "SAM → BAM header", &AlnHeader::from_noodles(&h2), &doc.header);
+                if back.len() != doc.records.len() {
+                    fails.push("c06.convert.sam2bam.count", format!("{} of {} records", back.len(), doc.records.len()));
+                } else {
+                    for (i, want) in doc.records.iter().enumerate() {
+                        push_record_diffs(&mut fails, "c06.convert.sam2bam", &format!("record #{i} after SAM → BAM"), &back[i].normalized(Norm::CROSS), &want.normalized(Norm::CROSS));
+                    }
+                }
+            }
+        }
+        let mut rd = sam::io::Reader::new(&sam_bytes[..]);
+        let mut w = bam::io::Writer::from(Vec::new());
+        let lazy_result: Result<Vec<u8>, String> = (|| {
+            let h = rd.read_header().map_err(|e| format!("read_header: {e}"))?;
+            w.write_header(&h).map_err(|e| format!("BAM write_header: {e}"))?;
+            let mut rec = sam::Record::default();
+            let mut i = 0;
+            while rd.read_record(&mut rec).map_err(|e| format!("read_record #{i}: {e}"))? != 0 {
+                w.write_alignment_record(&h, &rec).map_err(|e| format!("BAM writer rejects lazy sam::Record #{i}: {}", describe_err(&e)))?;
+                i += 1;
+            }
+            Ok(w.into_inner())
+        })();
+        match lazy_result {
+            Err(e) => {
+                let sig = if doc.records.iter().any(|r| r.has_nonlast_empty_array()) { "c06.convert.sam2bam.lazy.empty-array" } else { "c06.convert.sam2bam.lazy.error" };
+                fails.push(sig, e);
+            }
+            Ok(stream) => {
+                let mut rr = bam::io::Reader::from(&stream[..]);
+                match rr.read_header() {
+                    Err(e) => fails.push("c06.convert.sam2bam.lazy.error", format!("read_header: {e}")),
+                    Ok(h2) => {
+                        let mut rec = RecordBuf::default();
+                        for (i, want) in doc.records.iter().enumerate() {
+                            match rr.read_record_buf(&h2, &mut rec) {
+                                Ok(n) if n > 0 => push_record_diffs(&mut fails, "c06.convert.sam2bam.lazy", &format!("record #{i} after lazy SAM → BAM"), &AlnRecord::from_noodles(&rec).normalized(Norm::CROSS), &want.normalized(Norm::CROSS)),
+                                other => {
+                                    fails.push("c06.convert.sam2bam.lazy.error", format!("record #{i}: {other:?}"));
+                                    break;
+                                }
+                            }
+                        }
+                    }
+                }
+            }
+        }
+    }
+
+    // BAM → SAM: eager records, and lazy bam::Record handed straight to the SAM writer. When the
+    // bases are already in BAM's alphabet the text must be the SAM rendering of the original,
+    // byte for byte (SAM text carries no integer width, floats are bit-identical).
+    {
+        let folded = doc.records.iter().all(|r| r.bases().iter().all(|b| aln::fold_base(*b) == *b));
+        let conv: Vec<RecordBuf> = rb.iter().map(|r| r.to_noodles()).collect::<Result<_, _>>().map_err(|e| f("c06.harness.model", e))?;
+        match write_sam_doc(&hb, &conv, "c06.convert.bam2sam") {
+            Err(mut e) => fails.0.append(&mut e),
+            Ok(t) => {
+                if folded {
+                    if t != sam_bytes {
+                        fails.push("c06.convert.bam2sam.text", format!("BAM → SAM text differs from the direct SAM rendering: {} vs {}", show(&t), show(&sam_bytes)));
+                    }
+                } else {
+                    match read_sam_eager(&t, "c06.convert.bam2sam") {
+                        Err(mut e) => fails.0.append(&mut e),
+                        Ok((_, back)) => {
+                            if back.len() != doc.records.len() {
+                                fails.push("c06.convert.bam2sam.count", format!("{} of {} records", back.len(), doc.records.len()));
+                            } else {
+                                for (i, want) in doc.records.iter().enumerate() {
+                                    push_record_diffs(&mut fails, "c06.convert.bam2sam", &format!("record #{i} after BAM → SAM"), &back[i].normalized(Norm::CROSS), &want.normalized(Norm::CROSS));
+                                }
+                            }
+                        }
+                    }
+                }
+            }
+        }
+        let mut rd = bam::io::Reader::new(&bam_bytes[..]);
+        let lazy_result: Result<Vec<u8>, String> = (|| {
+            let h = rd.read_header().map_err(|e| format!("read_header: {e}"))?;
+            let mut w = sam::io::Writer::new(Vec::new());
+            w.write_header(&h).map_err(|e| format!("SAM write_header: {e}"))?;
+            let mut rec = bam::Record::default();
+            let mut i = 0;
+            while rd.read_record(&mut rec).map_err(|e| format!("read_record #{i}: {e}"))? != 0 {
+                w.write_alignment_record(&h, &rec).map_err(|e| format!("SAM writer rejects lazy bam::Record #{i}: {}", describe_err(&e)))?;
+                i += 1;
+            }
+            Ok(w.into_inner())
+        })();
+        match lazy_result {
+            Err(e) => fails.push("c06.convert.bam2sam.lazy.error", e),
+            Ok(t) => {
+                if folded {
+                    if t != sam_bytes {
+                        fails.push("c06.convert.bam2sam.lazy.text", format!("lazy BAM → SAM text differs from the direct SAM rendering: {} vs {}", show(&t), show(&sam_bytes)));
+                    }
+                } else {
+                    match read_sam_eager(&t, "c06.convert.bam2sam.lazy") {
+                        Err(mut e) => fails.0.append(&mut e),
+                        Ok((_, back)) => {
+                            if back.len() != doc.records.len() {
+                                fails.push("c06.convert.bam2sam.lazy.count", format!("{} of {} records", back.len(), doc.records.len()));
+                            } else {
+                                for (i, want) in doc.records.iter().enumerate() {
+                                    push_record_diffs(&mut fails, "c06.convert.bam2sam.lazy", &format!("record #{i} after lazy BAM → SAM"), &back[i].normalized(Norm::CROSS), &want.normalized(Norm::CROSS));
+                                }
+                            }
+                        }
+                    }
+                }
+            }
+        }
+    }
+
+    let nontrivial = !doc.records.is_empty() && (!doc.header.refs.is_empty() || doc.records.iter().any(|r| !r.aux.is_empty()));
+    let folded = doc.records.iter().all(|r| r.bases().iter().all(|b| aln::fold_base(*b) == *b));
+    let p = record_labels(Pass::new(nontrivial, key_of(c)).evals(doc.records.len().max(1) as u64), &doc.header, &doc.records)
+        .label_if(doc.records.is_empty(), "header-only")
+        .label_if(doc.header.is_empty(), "empty-header")
+        .label_if(folded && !doc.records.is_empty(), "text-identity-asserted")
+        .label_if(doc.header.refs.iter().any(|s| !s.other.is_empty()), "@SQ-other-fields")
+        .label_if(!doc.header.comments.is_empty(), "@CO")
+        .label_if(!doc.header.read_groups.is_empty(), "@RG")
+        .label_if(!doc.header.programs.is_empty(), "@PG");
+    fails.finish(p)
+}
 
 pub fn property() -> Property {
-    Property { id: "C06", level: "exploration", rule: "", assumptions: vec![], subs: vec![], max_parallel: 16 }
+    Property {
+        id: "C06",
+        level: "exploration",
+        rule: "headers (any mix of @HD/@SQ/@RG/@PG/@CO, standard and user tags, 0..many references); 1..3 SAM-valid records (names/strings over the printable range, '=' / '*' fields, finite floats, arrays, hex) as SAM text; documents of 0..4 records valid for both formats written as SAM and as BAM and converted both ways",
+        assumptions: vec![
+            "the harness's independent SAM grammar (header line parser, record line renderer per SAMv1 §1.3–1.5) and BAM header framing are correct".into(),
+            "float literals are checked by grammar and by Rust's f32 parser denoting the same bits; their spelling is not asserted".into(),
+            "comments exclude CR/LF; a one-base read with the single quality 9 (rendered `*`) is outside SAM text's representable set".into(),
+            "across formats bases are compared after BAM's alphabet folding and integer aux values numerically".into(),
+        ],
+        subs: vec![
+            sub(
+                "header",
+                "non-trivial = ≥2 kinds of lines or ≥1 optional field; distinct by hash of the case; oracles: written text denotes h (independent grammar parse), read_header/FromStr(write(h)) = h with field order, write(parse(t)) = t, re-ordered foreign rendering parses to the same header, BAM header text + binary dictionary = h",
+                header_strategy,
+                header_check,
+                12_000,
+                300_000,
+            )
+            .boxed(),
+            sub(
+                "record",
+                "1..3 records with a header; non-trivial = ≥1 aux field, ≥2 CIGAR ops or a mate reference; oracles: valid ⇒ accepted, the line equals the independent rendering (floats by value), eager and lazy parse = record (integers numerically), write(parse(t)) = t for both",
+                record_strategy,
+                record_check,
+                40_000,
+                1_000_000,
+            )
+            .boxed(),
+            sub(
+                "sam_bam",
+                "header + 0..4 records valid for SAM and BAM; non-trivial = ≥1 record and (a dictionary or an aux field); oracles: headers equal, records equal (SAM-read, BAM-read, written), SAM→BAM and BAM→SAM via RecordBuf and via the lazy records; BAM→SAM text identical to the direct rendering when bases are in BAM's alphabet",
+                doc_strategy,
+                doc_check,
+                24_000,
+                600_000,
+            )
+            .boxed(),
+        ],
+        max_parallel: 16,
+    }
 }
